@@ -294,6 +294,15 @@ class PteraTransformer(NodeTransformer):
         self.assigned = evc.assigned
         self.free = evc.free
         self.external = evc.used - evc.assigned - evc.free
+        # A name that is declared global is read from and written to the
+        # module all along, as the declaration asks: fetching it at entry
+        # would store it into the module (with what an overrider supplies)
+        self.external -= {
+            name
+            for node in ast.walk(tree)
+            if isinstance(node, ast.Global)
+            for name in node.names
+        }
         self.annotation_only = evc.ann_used - evc.real_used
         self.provenance = evc.provenance
         for ext in self.external:
@@ -808,15 +817,7 @@ class PteraTransformer(NodeTransformer):
         return node
 
     def visit_Global(self, node):
-        decl = node
-        if isinstance(node, ast.Global):
-            # A global that is only read is fetched into a local variable at
-            # entry, like any other: keeping the declaration would make that
-            # fetch (and what an overrider supplies) a store into the module
-            names = [n for n in node.names if n not in self.external]
-            decl = names and ast.copy_location(ast.Global(names), node)
-        if decl:
-            self.declarations.append(decl)
+        self.declarations.append(node)
         return ast.copy_location(ast.Pass(), node)
 
     visit_Nonlocal = visit_Global
